@@ -309,3 +309,221 @@ func init() {
 		return Str{out}
 	}
 }
+
+// ---- submatches ----
+// Find* are decided by a leftmost-first backtracking run of the compiled program in which every rune test on a symbolic
+// byte is a branch of the path (case split): capture positions are then concrete on each path (lengths are concrete).
+
+func (x *Exec) reFind(r *RegexpObj, s []*Term) []int {
+	if r.native != nil {
+		if raw, ok := concBytes(s); ok {
+			return r.native.FindSubmatchIndex(raw)
+		}
+	}
+	ncap := r.prog.NumCap
+	if ncap < 2 {
+		ncap = 2
+	}
+	for start := 0; start <= len(s); start++ {
+		caps := make([]int, ncap)
+		for i := range caps {
+			caps[i] = -1
+		}
+		visited := map[[2]int]bool{}
+		caps[0] = start
+		if x.reBack(r, s, uint32(r.prog.Start), start, caps, visited, 0) {
+			return caps
+		}
+	}
+	return nil
+}
+
+func concBytes(s []*Term) ([]byte, bool) {
+	raw := make([]byte, len(s))
+	for i, t := range s {
+		if t.op != OpConst {
+			return nil, false
+		}
+		raw[i] = byte(t.k)
+	}
+	return raw, true
+}
+
+func (x *Exec) reBack(r *RegexpObj, s []*Term, pc uint32, pos int, caps []int, visited map[[2]int]bool, depth int) bool {
+	if depth > 4000 {
+		x.engineErr("regexp: backtracking depth exceeded")
+	}
+	k := [2]int{int(pc), pos}
+	if visited[k] {
+		return false
+	}
+	visited[k] = true
+	in := &r.prog.Inst[pc]
+	switch in.Op {
+	case syntax.InstFail:
+		return false
+	case syntax.InstAlt, syntax.InstAltMatch:
+		if x.reBack(r, s, in.Out, pos, caps, visited, depth+1) {
+			return true
+		}
+		return x.reBack(r, s, in.Arg, pos, caps, visited, depth+1)
+	case syntax.InstNop:
+		return x.reBack(r, s, in.Out, pos, caps, visited, depth+1)
+	case syntax.InstCapture:
+		if int(in.Arg) < len(caps) {
+			old := caps[in.Arg]
+			caps[in.Arg] = pos
+			if x.reBack(r, s, in.Out, pos, caps, visited, depth+1) {
+				return true
+			}
+			caps[in.Arg] = old
+			return false
+		}
+		return x.reBack(r, s, in.Out, pos, caps, visited, depth+1)
+	case syntax.InstEmptyWidth:
+		if !x.c.Branch(x.emptyCond(syntax.EmptyOp(in.Arg), s, pos)) {
+			return false
+		}
+		return x.reBack(r, s, in.Out, pos, caps, visited, depth+1)
+	case syntax.InstMatch:
+		caps[1] = pos
+		return true
+	default: // rune instructions
+		if pos >= len(s) {
+			return false
+		}
+		if !x.c.Branch(x.runeCond(r, in, s[pos])) {
+			return false
+		}
+		return x.reBack(r, s, in.Out, pos+1, caps, visited, depth+1)
+	}
+}
+
+func (x *Exec) subStrs(s []*Term, caps []int) Value {
+	if caps == nil {
+		return Slice{}
+	}
+	out := make([]Value, len(caps)/2)
+	for i := range out {
+		if caps[2*i] >= 0 && caps[2*i+1] >= 0 {
+			out[i] = Str{s[caps[2*i]:caps[2*i+1]]}
+		} else {
+			out[i] = Str{}
+		}
+	}
+	return Slice{a: out}
+}
+
+func (x *Exec) intSlice(v []int) Value {
+	if v == nil {
+		return Slice{}
+	}
+	out := make([]Value, len(v))
+	for i, n := range v {
+		out[i] = x.intConst(int64(n))
+	}
+	return Slice{a: out}
+}
+
+func init() {
+	intrinsics["(*regexp.Regexp).FindStringSubmatch"] = func(x *Exec, a []Value) Value {
+		s := a[1].(Str).b
+		return x.subStrs(s, x.reFind(a[0].(*RegexpObj), s))
+	}
+	intrinsics["(*regexp.Regexp).FindStringSubmatchIndex"] = func(x *Exec, a []Value) Value {
+		return x.intSlice(x.reFind(a[0].(*RegexpObj), a[1].(Str).b))
+	}
+	intrinsics["(*regexp.Regexp).FindStringIndex"] = func(x *Exec, a []Value) Value {
+		c := x.reFind(a[0].(*RegexpObj), a[1].(Str).b)
+		if c == nil {
+			return Slice{}
+		}
+		return x.intSlice(c[:2])
+	}
+	intrinsics["(*regexp.Regexp).FindString"] = func(x *Exec, a []Value) Value {
+		s := a[1].(Str).b
+		c := x.reFind(a[0].(*RegexpObj), s)
+		if c == nil {
+			return Str{}
+		}
+		return Str{s[c[0]:c[1]]}
+	}
+	intrinsics["(*regexp.Regexp).FindSubmatch"] = func(x *Exec, a []Value) Value {
+		s := x.strOf(a[1]).b
+		c := x.reFind(a[0].(*RegexpObj), s)
+		if c == nil {
+			return Slice{}
+		}
+		out := make([]Value, len(c)/2)
+		for i := range out {
+			if c[2*i] >= 0 && c[2*i+1] >= 0 {
+				out[i] = x.bytesSlice(s[c[2*i]:c[2*i+1]])
+			} else {
+				out[i] = Slice{}
+			}
+		}
+		return Slice{a: out}
+	}
+	intrinsics["(*regexp.Regexp).Find"] = func(x *Exec, a []Value) Value {
+		s := x.strOf(a[1]).b
+		c := x.reFind(a[0].(*RegexpObj), s)
+		if c == nil {
+			return Slice{}
+		}
+		return x.bytesSlice(s[c[0]:c[1]])
+	}
+	intrinsics["(*regexp.Regexp).NumSubexp"] = func(x *Exec, a []Value) Value {
+		return x.intConst(int64(a[0].(*RegexpObj).prog.NumCap/2 - 1))
+	}
+	intrinsics["(*regexp.Regexp).String"] = func(x *Exec, a []Value) Value {
+		r := a[0].(*RegexpObj)
+		if len(r.holes) > 0 {
+			x.engineErr("regexp: String of a pattern with symbolic bytes")
+		}
+		return x.cstr(r.src)
+	}
+	// methods decided by the real library when pattern and subject are concrete
+	intrinsics["(*regexp.Regexp).ReplaceAllString"] = func(x *Exec, a []Value) Value {
+		r := a[0].(*RegexpObj)
+		s, ok1 := a[1].(Str).concrete()
+		rep, ok2 := a[2].(Str).concrete()
+		if r.native == nil || !ok1 || !ok2 {
+			x.engineErr("regexp: ReplaceAllString on symbolic data is not modelled")
+		}
+		return x.cstr2(r.native.ReplaceAllString(s, rep))
+	}
+	intrinsics["(*regexp.Regexp).FindAllString"] = func(x *Exec, a []Value) Value {
+		r := a[0].(*RegexpObj)
+		s, ok1 := a[1].(Str).concrete()
+		n := a[2].(*Term)
+		if r.native == nil || !ok1 || n.op != OpConst {
+			x.engineErr("regexp: FindAllString on symbolic data is not modelled")
+		}
+		res := r.native.FindAllString(s, int(sval(n.w, n.k)))
+		if res == nil {
+			return Slice{}
+		}
+		out := make([]Value, len(res))
+		for i, m := range res {
+			out[i] = x.cstr2(m)
+		}
+		return Slice{a: out}
+	}
+	intrinsics["(*regexp.Regexp).Split"] = func(x *Exec, a []Value) Value {
+		r := a[0].(*RegexpObj)
+		s, ok1 := a[1].(Str).concrete()
+		n := a[2].(*Term)
+		if r.native == nil || !ok1 || n.op != OpConst {
+			x.engineErr("regexp: Split on symbolic data is not modelled")
+		}
+		res := r.native.Split(s, int(sval(n.w, n.k)))
+		if res == nil {
+			return Slice{}
+		}
+		out := make([]Value, len(res))
+		for i, m := range res {
+			out[i] = x.cstr2(m)
+		}
+		return Slice{a: out}
+	}
+}
